@@ -5,7 +5,8 @@ FUNCTIONS = ['uxarray.grid.connectivity._replace_fill_values',
     'uxarray.io._topology._process_connectivity',
     'uxarray.io._mpas._parse_face_nodes@primal',
     'uxarray.io._mpas._parse_face_nodes@dual',
-    'uxarray.grid.coordinates._set_desired_longitude_range']
+    'uxarray.grid.coordinates._set_desired_longitude_range',
+    'uxarray.grid.grid.Grid.to_polycollection']
 STANDINS = ["sharing", "explicit_spec"]
 ASSUMPTIONS = []
 EXPLANATION = ""
